@@ -160,7 +160,7 @@ PROPS = {
     },
     "C12": {
         "level": "model_checking",
-        "verus": [],
+        "verus": ["c12_matching"],
         "kani": [KANI_NEGOTIATION],
         "explanation": "bounded model checking (Kani/CBMC) of the negotiation functions of langid.rs, extracted verbatim "
                        "(one rewrite) and compiled against small stand-ins for icu_locid's types and for std's Vec; "
